@@ -1145,13 +1145,12 @@ pub fn model_step(sc_in: &Scenario, step: &Step, state: &mut ModelState) -> Expe
     // cleanup of local rsync copies (only when a collector ran and the repository is not kept dirty):
     // a module copy survives if it was attempted in this run or a retained stored point lives in it.
     if !step.offline && !sc.cfg.dirty {
-        let keep: BTreeSet<usize> = sc
-            .cas
-            .iter()
-            .enumerate()
-            .filter(|(j, c)| attempted.contains(&c.module) || state.stored.contains_key(j))
-            .map(|(_, c)| c.module)
-            .collect();
+        let mut keep: BTreeSet<usize> = attempted.clone();
+        for (j, c) in sc.cas.iter().enumerate() {
+            if state.stored.contains_key(&j) {
+                keep.insert(c.module);
+            }
+        }
         state.local.retain(|j, _| keep.contains(&sc.cas[*j].module));
         state.local_modules.retain(|m| keep.contains(m));
         state.ta_local.retain(|(c, u), _| keep.contains(&ta_location(sc, *c, *u).0));
